@@ -64,6 +64,9 @@ def corpus_cases():
         ("corpus", 83, 209, 1.0, 3.33e11, 0.0, 0.0, 2.95e-3, (0.0,)),  # D18: a ~ lam, error path
         ("corpus", 83, 209, 1.0, 3.33e11, 70.0, 50.0, 2.95e-3, (0.0, 1.0)),
         ("corpus", 12, 26, 1.0, 1e2, 0.0, 0.0, 1e-3, (0.0,)),          # D12b: 2n returns 0.0
+        # D12b, other face: the burn-up rate of Ir-191 equals, to the last bit of a double, the loss rate of
+        # Ir-192 (found by the thorough tier, seed 3): the '2n' row divides by exactly zero
+        ("corpus", 77, 191, 1.0, 599005220004063.2, 2.0, 1.8520372948869819, 7184.966763397937, (0.0,)),
         ("corpus", 63, 151, 1.0, 1e16, 0.0, 0.0, 1e4, (0.0, 1e5)),     # heavy burn-up, underflow
         ("corpus", 27, 59, 1.0, 1e5, 70.0, 50.0, 10.0, (0.0, 1.0, 24.0, 360.0)),  # the doctest
     ]
@@ -228,7 +231,12 @@ def _condition(f, a, mass, fl, cd, fr, t):
             except Exception:  # noqa  (equal rates)
                 kappa = float("inf")
             kcap = float((rb + lp) / rb) if rb > 0 else float("inf")
-        return "cancellation" if max(kappa, kcap) > 1e5 else "none"
+            # two of the three rates agree to (nearly) all the digits a double has: the code's differences
+            # parent_activity - lam_2n etc. are then rounding noise or exactly 0 (ZeroDivisionError) although the
+            # exact sum is tame - the other face of D12b ("... ZeroDivisionError when two rates coincide exactly")
+            kmax = max(k1, k2, k3)
+            near = float(min(abs(k1 - k2), abs(k1 - k3), abs(k2 - k3)) / kmax) if kmax > 0 else 0.0
+        return "cancellation" if max(kappa, kcap) > 1e5 or near < 1e-9 else "none"
     if f["reaction"] == "b":
         lp = O.LN2 / O.dec(f["Thalf_parent"])
         return "cancellation" if max(lam, lp) * T < D("1e-6") else "none"
